@@ -292,7 +292,8 @@ function sizedTemplates(thorough) {
     ['mixed', (i) => ['<a>x</a>', '<a wx:if="{{x}}"/>', '<a wx:for="{{l}}">{{item}}</a>', '<a b="{{c ? d[e] : f}}"/>', '<a><b slot:v>{{v}}</b></a>'][i % 5]],
   ]
   const out = []
-  for (const [kind, f] of kinds) for (const n of sizes) {
+  for (const [kind, f] of kinds) for (const n of (kind === 'element-children' && !thorough ? [...sizes, 200000] : sizes)) {
+    // (quick tier: one kind walks the identifier counter past every reserved word of up to three letters: var is name number 178 875)
     if (kind === 'inline-scripts' && n > 10000) continue
     // (template definitions are looked up linearly while parsing: 2.5*10^5 of them take about an hour; the counter walk needs no more than the others)
     if (kind === 'template-definitions' && n > 60000) continue
